@@ -231,6 +231,17 @@ fn grid(ctx: &Ctx, for_c02: bool) -> Vec<Case> {
             }
         }
     }
+    // far corners of the configuration space: windows and input delays close to the 128-slot input ring, check distances
+    // up to 50, histories long enough to wrap the ring twice. Only what a session must hold (delay + check distance + 2
+    // inputs per player) stays inside the ring; the window itself may exceed it.
+    for (np, mp, cd, delay) in [(1usize, 130usize, 2usize, 0usize), (2, 8, 2, 119), (2, 64, 3, 63), (3, 127, 5, 0), (1, 12, 2, 115), (2, 32, 31, 10), (4, 100, 50, 20), (2, 20, 19, 100), (1, 200, 1, 0), (2, 126, 0, 60)] {
+        if for_c02 && ctx.quick() && (np + mp) % 2 != 0 {
+            continue;
+        }
+        let xs: Vec<i32> = if for_c02 { vec![] } else { vec![1, cd as i32 + 1, 130 + r.below(20) as i32, 256 + r.below(20) as i32] };
+        // (400 calls: the last re-simulation of the latest placement, 275 + check distance 50, and its report fit in)
+        v.push(Case { np, mp, cd, delay, sparse: false, frames: 400, xs, seed: r.next() });
+    }
     v
 }
 
@@ -260,7 +271,7 @@ pub fn check(ctx: &Ctx) -> i32 {
     let cs: Vec<Case> = grid(ctx, false).into_iter().filter(|c| ctx.only_case.as_ref().is_none_or(|o| *o == c.id())).collect();
     let res = par_run(ctx, &cs, &|c: &Case| c.id(), &run_case);
     let mut extra = Map::new();
-    extra.insert("grid".into(), json!("players 1..=4 x window 0..=12 x check_distance 0..=13 x delay (quick {0,1,3,8}, thorough 0..=8) x sparse flag; every point is visited"));
+    extra.insert("grid".into(), json!("players 1..=4 x window 0..=12 x check_distance 0..=13 x delay (quick {0,1,3,8}, thorough 0..=8) x sparse flag; every point is visited; plus 10 far-corner configurations (windows up to 200, delays up to 119, check distances up to 50) run for 400 frames"));
     let meta = Meta {
         level: "exploration",
         rule: "exhaustive grid of builder configurations: invalid ones (check_distance >= window, sparse saving) must be rejected with InvalidRequest, valid ones are run for 150 (quick) / 300 (thorough) frames with unique random inputs on a deterministic game — saving with a checksum on every frame, on no frame, on every 2nd and on every 3rd frame — (no MismatchedChecksum, request contract, every input Confirmed and equal to the submission delayed as configured) and, for check_distance >= 2, with a game whose k-th simulation (every k in 1..=min(check_distance, X)+1, i.e. the first simulation or any re-simulation) of frame X is perturbed, X over a placement set (quick: every X in 1..=check_distance+1, i.e. including the frames simulated before the first rollback, plus 6 random placements up to 60; thorough: every X in 1..=60): MismatchedChecksum must follow within check_distance+2 calls of the deviating simulation and name X+1 as first affected frame. Non-trivial: rejected invalid configuration, or valid configuration with check_distance >= 2 (comparison active) and >= 100 frames. Distinct: grid point.".into(),
